@@ -9,7 +9,7 @@ def pre(chk):
 
 
 def run(tier, seed):
-    return exec_common.run_exec(PID, tier, seed, 3, scns=("exec", "migrate", "xjoin", "stacked"), pre=pre)
+    return exec_common.run_exec(PID, tier, seed, 3, scns=("exec", "migrate", "xjoin", "stacked", "privjoin"), pre=pre)
 
 
 def replay(path):
